@@ -192,3 +192,22 @@ def distribution(cases, impl_out):
         o['%s/%s/%s' % (key[0], key[1], res)] += 1
     return {'cases_by_origin_mode_outcome': dict(o), 'accepted_trees_containing_node_kind': dict(kinds),
             'contexts': dict(collections.Counter(c['desc']['ctx'] for c in cases))}
+
+
+# ---- twin contexts (real code only): a chain of parsing-state changes means its steps applied in order ---------------
+def twin_cases(rnd, n, tolerant=(False,)):
+    out = []
+    for i, s in enumerate(docgen.chain2_strings(rnd, n)):
+        out.append({'wire': [999], 'nt': True,
+                    'desc': {'ctx': 'chain2', 's': s, 'tolerant': tolerant[i % len(tolerant)], 'origin': 'chained-twin'}})
+    return out
+
+
+def oracle_twin(d):
+    """the document parsed under the specifications written with ParsingStateDeltaChained and under the same
+    specifications whose chains are applied step by step by the harness's own delta object: same outcome line"""
+    a = P.parse_top(d['s'], d['tolerant'], docgen.make_db('chain2'))
+    b = P.parse_top(d['s'], d['tolerant'], docgen.make_db('chain2-ref'))
+    if a != b:
+        return ('chained-state-changes-not-applied-in-sequence', {'with_chain': a[:400], 'step_by_step': b[:400]})
+    return None
